@@ -20,6 +20,9 @@ CLUSTERS = {
     "c2g1": [[{"CPU": 2, "GPU": 1}]],
     "c1c2": [[{"CPU": 1}, {"CPU": 2}]],
     "c2c1": [[{"CPU": 2}, {"CPU": 1}]],
+    # one unit of each of two types: tasks that use only one type never meet the
+    # others in that type's capacity rows
+    "c1g1": [[{"CPU": 1, "GPU": 1}]],
 }
 
 OPTS = {
@@ -67,6 +70,13 @@ def strategies_for(n, variant):
             ss = [[1, {"GPU": 1}], [RT[k] + 1, {"CPU": 1}]]
         if variant == 4:
             ss = [[1, {"CPU": 2}], [3, {"CPU": 1}]] if k == 0 else [[RT[k], {"CPU": 2}]]
+        if variant == 5:
+            # disjoint resource types: the first task only uses the GPU, the last one
+            # too, the ones in between only the CPU
+            ss = [[RT[k], {"GPU": 1}]] if k in (0, n - 1) and n > 1 \
+                else [[RT[k], {"CPU": 1}]]
+        if variant == 6:
+            ss = [[RT[k], {"CPU": 1}]] if k == 0 else [[RT[k], {"GPU": 1}]]
         out.append(ss)
     return out
 
@@ -100,7 +110,7 @@ def gen(policies, tier, seed=0, shapes=None, variants=(0, 1), clusters=("c2", "c
             for variant in variants:
                 strategies = strategies_for(n, variant)
                 for ck in clusters:
-                    if variant == 3 and "g1" not in ck:
+                    if variant in (3, 5, 6) and "g1" not in ck:
                         continue
                     pats = progress_patterns(n, edges, ck, strategies, now)
                     for pk in progress:
